@@ -442,21 +442,26 @@ pub fn format_index(ctx: &Context, index: &Index, shape: Shape) -> Index {
                     brackets,
                     expression,
                 }
-            } else if starts_with_brackets_string(&format_expression(ctx, expression, shape + 2)) {
-                Index::Brackets {
-                    brackets: format_contained_span(ctx, brackets, shape),
-                    expression: format_expression(ctx, expression, shape + 2) // 2 = "[ "
-                        .update_leading_trivia(FormatTriviaType::Append(vec![Token::new(
-                            TokenType::spaces(1),
-                        )]))
-                        .update_trailing_trivia(FormatTriviaType::Append(vec![Token::new(
-                            TokenType::spaces(1),
-                        )])),
-                }
             } else {
-                Index::Brackets {
-                    brackets: format_contained_span(ctx, brackets, shape),
-                    expression: format_expression(ctx, expression, shape + 1), // 1 = opening bracket
+                // The key is formatted once; only a key that turns out to begin with a brackets string
+                // is formatted again, with room for the space that keeps `[ [[` apart
+                let formatted_expression = format_expression(ctx, expression, shape + 1); // 1 = opening bracket
+                if starts_with_brackets_string(&formatted_expression) {
+                    Index::Brackets {
+                        brackets: format_contained_span(ctx, brackets, shape),
+                        expression: format_expression(ctx, expression, shape + 2) // 2 = "[ "
+                            .update_leading_trivia(FormatTriviaType::Append(vec![Token::new(
+                                TokenType::spaces(1),
+                            )]))
+                            .update_trailing_trivia(FormatTriviaType::Append(vec![Token::new(
+                                TokenType::spaces(1),
+                            )])),
+                    }
+                } else {
+                    Index::Brackets {
+                        brackets: format_contained_span(ctx, brackets, shape),
+                        expression: formatted_expression,
+                    }
                 }
             }
         }
